@@ -1801,6 +1801,9 @@ pub mod internal {
     pub use crate::analyze::analyze;
     pub use crate::compile::compile;
     pub use crate::vm::{run_default, run_trace, Insn, Prog};
+    /// Verification hooks (only with `--cfg fancy_regex_verif`).
+    #[cfg(fancy_regex_verif)]
+    pub use crate::vm::verif;
 }
 
 #[cfg(test)]
